@@ -329,6 +329,8 @@ def gen_program(rng, dtype="float64", n_leaves=None, n_nodes=None, p_probe=0.0, 
         n_leaves = rng.choice([1, 2, 2, 3, 3, 4, 5, 6])
     if n_nodes is None:
         n_nodes = rng.choice([1, 2, 3, 4, 5, 6, 8, 10])
+        if rng.random() < 0.06:
+            n_nodes = rng.choice([14, 18, 24])  # a few deep/large programs in every batch (size swarm)
     cols = 0
     for i in range(n_leaves):
         shape = rng.choice(LEAF_SHAPES)
